@@ -522,12 +522,16 @@ func (db *MultiBucketBackend) PutObject(
 
 	if objectDir != "." {
 		if err := db.bucketFs.MkdirAll(objectDir, db.dirMode); err != nil {
+			removeNewDirs(db.bucketFs, path.Dir(objectPath), bucketName)
 			return result, err
 		}
 	}
 
 	f, err := db.bucketFs.Create(objectFilePath)
 	if err != nil {
+		// Empty directories would show up as common prefixes and keep the
+		// bucket from being deleted:
+		removeNewDirs(db.bucketFs, path.Dir(objectPath), bucketName)
 		return result, err
 	}
 
